@@ -59,6 +59,11 @@ def IterSt.setPos (s : IterSt) (p : Nat) : IterSt := { s with cur := s.cur.set s
 
 def initIter (banks : List Bank) : IterSt := ⟨0, List.replicate banks.length 0⟩
 
+/-- `advance_position`: the position of a bank is a machine word; a sum that does not fit is "value is out of
+    supported range" (finding F61, repaired: the sums wrapped around in the released binary) -/
+def addPos (s : IterSt) (n : Nat) : Except LayErr IterSt :=
+  if s.pos + n < 2 ^ 64 then .ok (s.setPos (s.pos + n)) else .error .valueRange
+
 /-- `labelalign` is honoured for every *label* of depth 0 (finding F57, repaired: constants were padded too) -/
 def visitSymbol (banks : List Bank) (s : IterSt) (depth : Nat) : Except LayErr IterSt :=
   match banks[s.bank]? with
@@ -68,7 +73,7 @@ def visitSymbol (banks : List Bank) (s : IterSt) (depth : Nat) : Except LayErr I
     | some la =>
       if depth = 0 then
         match bitsUntilAlignment (b.addrStart * b.addrUnit + s.pos) la with
-        | .ok n => .ok (s.setPos (s.pos + n))
+        | .ok n => addPos s n
         | .error e => .error e
       else .ok s
     | none => .ok s
@@ -82,14 +87,14 @@ def visit (banks : List Bank) (s : IterSt) : RItem → Except LayErr IterSt
 
 /-- `advance_address` for the item just visited -/
 def advance (banks : List Bank) (s : IterSt) : RItem → Except LayErr IterSt
-  | .emit bits => .ok (s.setPos (s.pos + bits.length))
-  | .res n => .ok (s.setPos (s.pos + n))
+  | .emit bits => addPos s bits.length
+  | .res n => addPos s n
   | .align n =>
     match banks[s.bank]? with
     | none => .error .badBank
     | some b =>
       match bitsUntilAlignment (b.addrStart * b.addrUnit + s.pos) n with
-      | .ok k => .ok (s.setPos (s.pos + k))
+      | .ok k => addPos s k
       | .error e => .error e
   | .addr a =>
     match banks[s.bank]? with
@@ -98,7 +103,7 @@ def advance (banks : List Bank) (s : IterSt) : RItem → Except LayErr IterSt
       let newPos :=
         if a ≥ b.addrStart then
           let d := a - b.addrStart
-          (if d < (2 ^ 64 : Nat) then d.toNat else 0) * b.addrUnit
+          if d < (2 ^ 64 : Nat) ∧ d.toNat * b.addrUnit < 2 ^ 64 then d.toNat * b.addrUnit else 0
         else 0
       .ok (s.setPos newPos)
   | _ => .ok s
